@@ -4,12 +4,12 @@
  "file": "type.c", "function": "typemember",
  "properties": {"C06": "contract", "C19": "safety"},
  "mode": "harness",
- "unwind": 5,
+ "unwind": 2, "unwindset": ["typemember.0:4", "strcmp.0:4"],
  "kind": "bounded",
  "bound": "struct/union with <= 3 members, each named or an anonymous struct/union with <= 2 named members (nesting <= 2); member names and the searched name 1-2 characters; all offsets arbitrary 64-bit",
  "timeout": 200,
  "expects": ["assertion_verif", "unwind"],
- "assumes": ["harness-enforced (typemember is recursive and loops over a linked list; PRE fixes the list shapes up to the bound; --unwind 5 with unwinding assertions covers the 3-member list, the 2-member inner lists, the recursion depth 2 and strcmp on 3-byte strings)",
+ "assumes": ["harness-enforced (typemember is recursive and loops over a linked list; PRE fixes the list shapes up to the bound; --unwind 2 for the recursion, --unwindset typemember.0:4,strcmp.0:4 for the member-list loop and strcmp on 3-byte strings, unwinding assertions on)",
              "strcmp is CBMC's library model",
              "offsets add modulo 2^64 (no struct is that large: decl.c bounds sizes)"]
 }
@@ -44,8 +44,10 @@ u64 g_off0;                    /* *offset before the call                       
 /* the member the standard designates: first in declaration order, depth first */
 #define SPEC_IN(i)  (HIT(i) ? &h_m[i] : IHIT(i, 0) ? &h_im[i][0] : &h_im[i][1])
 #define SPEC_M      (ANY(0) ? SPEC_IN(0) : ANY(1) ? SPEC_IN(1) : ANY(2) ? SPEC_IN(2) : (struct member *)0)
-#define SPEC_OFFIN(i) (HIT(i) ? g_off[i] : g_off[i] + (IHIT(i, 0) ? g_ioff[i][0] : g_ioff[i][1]))
-#define SPEC_OFF    (ANY(0) ? SPEC_OFFIN(0) : ANY(1) ? SPEC_OFFIN(1) : ANY(2) ? SPEC_OFFIN(2) : 0)
+/* the offset sum start + (offset inside the anonymous member) + (offset of the anonymous member); written in this
+   association order so that the SAT back end does not have to prove 64-bit addition associative (it took > 200 s) */
+#define SPEC_TOTIN(i) (HIT(i) ? g_off0 + g_off[i] : (g_off0 + (IHIT(i, 0) ? g_ioff[i][0] : g_ioff[i][1])) + g_off[i])
+#define SPEC_TOTAL  (ANY(0) ? SPEC_TOTIN(0) : ANY(1) ? SPEC_TOTIN(1) : ANY(2) ? SPEC_TOTIN(2) : g_off0)
 
 #define NAMEOK(s)   ((s)[0] != 0 && (s)[2] == 0)
 #define MEMB_OK(i)  (IMP(i < g_nm, (h_m[i].offset == g_off[i] && h_m[i].next == (i + 1 < g_nm ? &h_m[i + 1 < NM ? i + 1 : 0] : 0) && \
@@ -65,7 +67,7 @@ u64 g_off0;                    /* *offset before the call                       
 
 #define POST(X) \
 	X(HRET == SPEC_M) \
-	X(*offset == g_off0 + SPEC_OFF) \
+	X(*offset == SPEC_TOTAL) \
 	X(IMP(HRET == 0, *offset == g_off0)) \
 	X(IMP(HRET != 0, (HRET->name != 0 && STREQ(HRET->name, h_q)))) \
 	/* the type is not modified */ \
@@ -79,7 +81,6 @@ harness(void)
 	struct type *t = &h_S;
 	const char *name = h_q;
 	unsigned long long *offset = &off;
-	unsigned i;
 
 	IN(unsigned, in_nm);
 	IN(bool, in_union);
@@ -108,18 +109,19 @@ harness(void)
 
 	h_S.kind = in_union ? TYPEUNION : TYPESTRUCT;
 	{ __typeof__(h_S.u.structunion) su = {0, &h_m[0]}; h_S.u.structunion = su; }
-	for (i = 0; i < NM; i++) {
-		h_m[i].name = g_anon[i] ? (char *)0 : &h_mn[i][0];
-		h_m[i].type = g_anon[i] ? &h_I[i] : &typeint;
-		h_m[i].offset = g_off[i];
-		h_m[i].next = i + 1 < g_nm ? &h_m[i + 1] : 0;
-		h_I[i].kind = TYPESTRUCT;
-		{ __typeof__(h_I[i].u.structunion) su = {0, &h_im[i][0]}; h_I[i].u.structunion = su; }
-		h_im[i][0].name = h_imn[i][0]; h_im[i][0].type = &typeint; h_im[i][0].offset = g_ioff[i][0];
-		h_im[i][0].next = g_ni[i] == 2 ? &h_im[i][1] : 0;
-		h_im[i][1].name = h_imn[i][1]; h_im[i][1].type = &typeint; h_im[i][1].offset = g_ioff[i][1];
-		h_im[i][1].next = 0;
-	}
+#define BUILD(i) do { \
+		h_m[i].name = g_anon[i] ? (char *)0 : &h_mn[i][0]; \
+		h_m[i].type = &h_I[i];   /* a named member's type is never looked at; pointing it at a struct keeps the value sets small */ \
+		h_m[i].offset = g_off[i]; \
+		h_m[i].next = i + 1 < g_nm ? &h_m[i + 1 < NM ? i + 1 : 0] : 0; \
+		h_I[i].kind = TYPESTRUCT; \
+		{ __typeof__(h_I[i].u.structunion) su = {0, &h_im[i][0]}; h_I[i].u.structunion = su; } \
+		h_im[i][0].name = h_imn[i][0]; h_im[i][0].type = 0; h_im[i][0].offset = g_ioff[i][0]; \
+		h_im[i][0].next = g_ni[i] == 2 ? &h_im[i][1] : 0; \
+		h_im[i][1].name = h_imn[i][1]; h_im[i][1].type = 0; h_im[i][1].offset = g_ioff[i][1]; \
+		h_im[i][1].next = 0; \
+	} while (0)
+	BUILD(0); BUILD(1); BUILD(2);
 	off = in_start; g_off0 = in_start;
 	HCALLR(struct member *, PRE, POST, typemember(t, name, offset));
 }
